@@ -20,7 +20,11 @@ theorem sleepUntil_max (now d : Int) : sleepUntil now d = max now (now + d) := b
 /-- the error-delay sleep ends at `max(patched, ended + d)` -/
 theorem sleep_stateDelay (ended now d : Int) :
     sleepUntil now (stateDelay ended now (some d)) = max now (ended + d) := by
-  unfold sleepUntil stateDelay; split <;> split <;> omega
+  by_cases h : ended + d - now ≤ 0
+  · have e : stateDelay ended now (some d) = 0 := by simp [stateDelay, h]
+    rw [e]; unfold sleepUntil; simp; omega
+  · have e : stateDelay ended now (some d) = ended + d - now := by simp [stateDelay, h]
+    rw [e]; unfold sleepUntil; rw [if_neg h]; omega
 
 theorem sleep_stateDelay_none (ended now : Int) :
     sleepUntil now (stateDelay ended now none) = now := by
@@ -150,17 +154,12 @@ theorem nextStartN_sound {cfg : Cfg} {pv : PView} {view : View} (hx : Extends pv
   unfold nextStartN at e
   unfold Next
   split at e
-  · rename_i w hw
-    rw [hw]
-    exact gateN_sound hx e
-  · rename_i idle hw
-    rw [hw]
-    split at e
+  · exact gateN_sound hx e
+  · split at e
     · rename_i p hp
       exact ⟨p, pollN_sound hx n _ _ hp, gateN_sound hx e⟩
     · rename_i other hne
-      cases other <;> first | cases e | skip
-      exact absurd rfl (hne _)
+      exact (hne _ e).elim
   · cases e
 
 theorem firstStartN_sound {cfg : Cfg} {pv : PView} {view : View} (hx : Extends pv view) {n : Nat}
